@@ -539,3 +539,76 @@ func nativeSlicesContains(x *Exec, st *State, fr *Frame, at ssa.Instruction, a [
 	st.assume(Implies(Not(r), Term{fmt.Sprintf("(forall ((%[1]s Int)) (! (=> (and (<= 0 %[1]s) (< %[1]s %[2]s)) (not (= (select %[3]s (+ %[4]s %[1]s)) %[5]s))) :pattern ((select %[3]s (+ %[4]s %[1]s)))))", q, ln.S, row.S, off.S, v.T.S), SBool}))
 	return Val{T: r, Typ: types.Typ[types.Bool]}, true
 }
+
+// ---------- bech32 address parsing ----------
+
+func init() {
+	fromBech := func(kind string) nativeFn {
+		return func(x *Exec, st *State, fr *Frame, at ssa.Instruction, a []Val) (Val, bool) {
+			call, ok := at.(*ssa.Call)
+			if !ok || a[0].T.Sort != SStr {
+				return Val{}, false
+			}
+			res := call.Call.Signature().Results()
+			fn := kind + ".frombech32"
+			x.D.DeclareFun(fn, []string{SStr}, SBytes)
+			r := x.freshVal(st, "addr", res.At(0).Type())
+			st.assume(Eq(x.bytesOf(st, r), App(SBytes, fn, a[0].T)))
+			x.sawRef(st, r)
+			if res.Len() == 1 {
+				return r, true
+			}
+			e := x.freshVal(st, "bech32err", res.At(1).Type())
+			return Val{T: Term{"unit", SUnit}, Tup: []Val{r, e}}, true
+		}
+	}
+	natives[pkgSDK+"AccAddressFromBech32"] = fromBech("acc")
+	natives[pkgSDK+"MustAccAddressFromBech32"] = fromBech("acc")
+	natives[pkgSDK+"ValAddressFromBech32"] = fromBech("val")
+	ident := func(x *Exec, st *State, fr *Frame, at ssa.Instruction, a []Val) (Val, bool) {
+		if a[0].T.Sort != SSlice {
+			return Val{}, false
+		}
+		call, ok := at.(*ssa.Call)
+		if !ok {
+			return Val{}, false
+		}
+		return Val{T: a[0].T, Typ: call.Type()}, true
+	}
+	natives[pkgSDK+"(AccAddress).Bytes"] = ident
+	natives[pkgSDK+"(ValAddress).Bytes"] = ident
+}
+
+func init() {
+	// sdk.Coin getters
+	natives[pkgSDK+"(Coin).GetDenom"] = func(x *Exec, st *State, fr *Frame, at ssa.Instruction, a []Val) (Val, bool) {
+		si := x.S.StructInfo(a[0].Typ)
+		if si == nil || fieldIndex(si.typ, "Denom") < 0 {
+			return Val{}, false
+		}
+		i := fieldIndex(si.typ, "Denom")
+		return Val{T: App(si.fields[i], x.S.fieldSel(si.sort, si.typ, i), a[0].T), Typ: types.Typ[types.String]}, true
+	}
+}
+
+func init() {
+	// generated getter (*Coin).GetDenom: the Denom field of the coin the pointer refers to
+	natives[pkgSDK+"(*Coin).GetDenom"] = func(x *Exec, st *State, fr *Frame, at ssa.Instruction, a []Val) (Val, bool) {
+		ct := typNamed(x, "github.com/cosmos/cosmos-sdk/types", "Coin")
+		si := x.S.StructInfo(ct)
+		if si == nil || a[0].T.Sort != SRef {
+			return Val{}, false
+		}
+		i := fieldIndex(si.typ, "Denom")
+		l := x.lvalOf(Val{T: a[0].T, Typ: types.NewPointer(ct), LV: a[0].LV}).extend(lstep{field: i, ct: ct})
+		t, _, err := x.loadLV(st.heap, l)
+		if err != nil {
+			return Val{}, false
+		}
+		nonNil := Not(Eq(x.rootOf(a[0]), TNull))
+		if a[0].LV != nil && len(a[0].LV.Path) > 0 {
+			nonNil = TTrue // address of a field: never nil
+		}
+		return Val{T: Ite(nonNil, t, x.S.StrLit("")), Typ: types.Typ[types.String]}, true
+	}
+}
